@@ -389,13 +389,19 @@ def models_ext(tier):
 # if-equations whose branches are themselves pattern-matched shapes (eliminable-variable assignment, alias,
 # constant assignment).  After expand_mx (+ expand_vectors) an if-equation is a sum of if_else_zero terms, which
 # eliminable_variable_expression may turn into ONE assignment only when every branch assigns the same variable.
-# A branch is (variable, defining expression, its negation); the eliminable regex is ^(g|k)$ (h, m never match).
-IFEQ_ELIM_RE = "^(g|k)$"
+# A branch equation is (variable, defining expression, its negation) - written in the orientation chosen for its
+# branch - or a nested if-equation {"if": condition index, "then": [...], "else": [...]}.
+# The eliminable regex matches g, k and the elements of gv; h never matches.
+IFEQ_ELIM_RE = r"^(g|k|gv\[[12]\])$"
 G1, G2, G3 = ("g", "2 * x + u", "-2 * x - u"), ("g", "3 * x - u", "u - 3 * x"), ("g", "x + 4", "-x - 4")
 K1, K2, K3 = ("k", "x - 2 * u", "2 * u - x"), ("k", "3 * x - u", "u - 3 * x"), ("k", "5 - x", "x - 5")
 H2, GZ = ("h", "3 * x - u", "u - 3 * x"), ("g", "0", "0")
+V11, V12 = ("gv[1]", "2 * x + u", "-2 * x - u"), ("gv[1]", "3 * x - u", "u - 3 * x")
+V21, V22 = ("gv[2]", "x - 2 * u", "2 * u - x"), ("gv[2]", "5 - x", "x - 5")
+GIE = ("g", "(if x < 1 then 2 * x else u)", "(if x < 1 then -2 * x else -u)")
 SUM_GK, K_OF_G, H_DEF = "g + k = 11 + x", "k = g + 1", "h = 2 * x - u"
-# shape -> (blocks (one list of branches per if/elseif/else), further equations)
+GK_OF_GV = ["g = gv[1]", "k = gv[2] + 1", H_DEF]
+# shape -> (blocks (one list of branch equations per if / elseif / else clause), further equations)
 IFEQ_SHAPES = {
     "same2": ([[G1], [G2]], [K_OF_G, H_DEF]),                 # the tested shape: both branches assign g
     "diff2": ([[G1], [K2]], [SUM_GK, H_DEF]),                 # branches assign different eliminable variables
@@ -410,14 +416,23 @@ IFEQ_SHAPES = {
     "block2": ([[G1, K1], [G2, K2]], [H_DEF]),                # two equations per branch, rows aligned
     "block2x": ([[G1, K1], [K2, G2]], [H_DEF]),               # ... rows crossed (row 1: g / k, row 2: k / g)
     "block2h": ([[G1, H2], [G2, ("h", "x + u", "-x - u")]], [K_OF_G]),
+    "vec2": ([[V11, V21], [V12, V22]], GK_OF_GV),             # elements of a vector, rows aligned / crossed
+    "vec2x": ([[V11, V21], [V22, V12]], GK_OF_GV),
+    "nest": ([[{"if": 1, "then": [G1], "else": [G3]}], [G2]], [K_OF_G, H_DEF]),          # nested if-equation
+    "nestdiff": ([[{"if": 1, "then": [G1], "else": [K3]}], [G2]], [SUM_GK, H_DEF]),
+    "nestdiff2": ([[G1], [{"if": 1, "then": [K2], "else": [G3]}]], [SUM_GK, H_DEF]),
+    "ifexpr": ([[GIE], [G2]], [K_OF_G, H_DEF]),               # assigned value is itself an if-expression
+    "ifexprdiff": ([[GIE], [K2]], [SUM_GK, H_DEF]),
     # branches that look like aliases / constant assignments (for detect_aliases / eliminate_constant_assignments)
     "aliasx": ([[("g", "x", "-x")], [("g", "-x", "x")]], [K_OF_G, H_DEF]),
     "aliash": ([[("g", "h", "-h")], [("g", "-h", "h")]], [K_OF_G, H_DEF]),
+    "aliassame": ([[("g", "h", "-h")], [("g", "h", "-h")]], [K_OF_G, H_DEF]),
     "aliasdiff": ([[("g", "h", "-h")], [("k", "h", "-h")]], [SUM_GK, H_DEF]),
     "constif": ([[("g", "3.0", "-3.0")], [("g", "-0.25", "0.25")]], [K_OF_G, H_DEF]),
     "constdiff": ([[("g", "3.0", "-3.0")], [("k", "3.0", "-3.0")]], [SUM_GK, H_DEF]),
 }
-# condition tag -> (conditions for the if / elseif clauses, value of the Boolean parameter bp)
+IFEQ_CORE = ("same2", "diff2", "diff2r", "mixed2")
+# condition tag -> (conditions for the if / elseif (or nested if) clauses, value of the Boolean parameter bp)
 IFEQ_CONDS = {
     "bT": (["bp", "u > p"], "true"), "bF": (["bp", "u > p"], "false"), "notbT": (["not bp", "u > p"], "true"),
     "u>p": (["u > p", "x < 1"], "true"), "x<1": (["x < 1", "bp"], "true"), "x<1F": (["x < 1", "bp"], "false"),
@@ -427,22 +442,31 @@ IFEQ_FORMS = [("V=E", "V=E", "V=E"), ("E=V", "V=E", "E=V"), ("V=E", "E=V", "E=V"
               ("V+N=0", "N=-V", "0=V+N"), ("0=V-E", "E-V=0", "-V=N")]
 
 
+def _ifeq_lines(entries, form, conds, ind):
+    out = []
+    for e in entries:
+        if isinstance(e, dict):
+            out.append(f"{ind}if {conds[e['if']]} then")
+            out += _ifeq_lines(e["then"], form, conds, ind + "  ")
+            out.append(f"{ind}else")
+            out += _ifeq_lines(e["else"], form, conds, ind + "  ")
+            out.append(f"{ind}end if;")
+        else:
+            out.append(ind + _fill(form, *e) + ";")
+    return out
+
+
 def ifeq_model(shape, cond, forms):
     blocks, extra = IFEQ_SHAPES[shape]
     conds, bval = IFEQ_CONDS[cond]
     fm = dict(ORIENT_FORMS)
     lines = []
     for bi, block in enumerate(blocks):
-        if bi == 0:
-            lines.append(f"  if {conds[0]} then")
-        elif bi < len(blocks) - 1:
-            lines.append(f"  elseif {conds[bi]} then")
-        else:
-            lines.append("  else")
-        for V, E, N in block:
-            lines.append("    " + _fill(fm[forms[bi]], V, E, N) + ";")
+        lines.append(f"  if {conds[0]} then" if bi == 0 else (f"  elseif {conds[bi]} then" if bi < len(blocks) - 1 else "  else"))
+        lines += _ifeq_lines(block, fm[forms[bi]], conds, "    ")
     lines.append("  end if;")
     return (f"model S\n  parameter Boolean bp = {bval};\n  parameter Real p = 2;\n  input Real u;\n  Real x(start = 1);\n"
+            + ("  Real gv[2];\n" if shape.startswith("vec") else "") +
             "  Real g, k, h, y;\nequation\n  der(x) = -p * x + y;\n" + "\n".join(lines) + "\n" +
             "".join(f"  {e};\n" for e in extra) + "  y = g - 2 * k + h + x;\nend S;\n")
 
@@ -451,15 +475,16 @@ def ifeq_models(tier):
     out = []
     quick = tier == "quick"
     for shape, (blocks, _) in IFEQ_SHAPES.items():
-        core = shape in ("same2", "diff2", "diff2r", "mixed2")
-        conds = ["bT", "bF", "u>p"] if quick else list(IFEQ_CONDS)
-        if quick and core:
-            conds += ["x<1"]
+        core = shape in IFEQ_CORE
+        if quick:
+            conds = ["bT", "bF", "u>p"] + (["x<1"] if core else [])
+        else:
+            conds = list(IFEQ_CONDS) if core else ["bT", "bF", "u>p", "x<1", "and"]
         for cond in conds:
             if quick:
                 forms = IFEQ_FORMS[:3] if core and cond in ("bT", "u>p") else IFEQ_FORMS[:1]
             else:
-                forms = IFEQ_FORMS if core or cond in ("bT", "u>p") else IFEQ_FORMS[:2]
+                forms = IFEQ_FORMS if core or cond == "u>p" else IFEQ_FORMS[:2]
             for fr in forms:
                 out.append((f"ifeq:{shape}:{cond}:{'/'.join(fr[:len(blocks)])}", ifeq_model(shape, cond, fr)))
     return out
@@ -471,17 +496,16 @@ def ifeq_option_sets(mid, tier):
     eca, rcv, da = {"eliminate_constant_assignments": True}, {"replace_constant_values": True}, {"detect_aliases": True}
     allsix = dict(base, **{k: True for k in SIX if k != "eliminable_variable_expression"})
     shape, cond, forms = mid.split(":")[1:4]
-    first = forms.split("/")[0] == "V=E" and forms.split("/")[1] == "V=E"
+    first = set(forms.split("/")) == {"V=E"}
     out = [base, dict(base, **da), eve]
-    if first or tier != "quick":
+    if first or (tier != "quick" and shape in IFEQ_CORE):
         out += [dict(base, **eca, **rcv), allsix]
-        if cond in ("bT", "bF", "notbT", "x<1F", "and", "u<=p"):
-            out.append(dict(base, replace_parameter_values=True))
+        out.append(dict(base, replace_parameter_values=True))
         if shape.startswith("alias"):
             out += [da, dict(da, expand_mx=True, expand_vectors=True)]
         if shape.startswith("const"):
             out += [eca, dict(eca, **rcv, expand_mx=True, expand_vectors=True)]
-    if tier != "quick":
+    if tier != "quick" and (first or shape in IFEQ_CORE):
         out += [dict(base, replace_parameter_expressions=True), dict(base, factor_and_simplify_equations=True),
                 dict(base, iterative_simplification=True, **da), {k: v for k, v in allsix.items() if k != "expand_vectors"},
                 dict(da, **eca, **rcv), {"expand_mx": True, "expand_vectors": True}, {"expand_vectors": True},
@@ -495,6 +519,62 @@ def ifeq_option_sets(mid, tier):
     return uniq
 
 
+# ---- cycle ------------------------------------------------------------------------------------------
+# alias cycles among algebraic variables only, in every equation order: the order decides through which member
+# (canonical or not) of the class built so far the cycle is closed.  Sign product +1 = redundant (one degree of
+# freedom on both sides), -1 = contradictory (all members 0).  link:cycle2 / link:cycle3 above have the ring
+# shape in its written order only.
+def _cycle_eqs(shape, s):
+    if shape == "ring":      # a - b - d2 - a
+        return [f"a = {_sg(s[0], 'b')}", f"b = {_sg(s[1], 'd2')}", f"d2 = {_sg(s[2], 'a')}"]
+    if shape == "star":      # two members tied to b, then to each other
+        return [f"a = {_sg(s[0], 'b')}", f"d2 = {_sg(s[1], 'b')}", f"a = {_sg(s[2], 'd2')}"]
+    if shape == "sum":       # closing equation written as a sum / difference equal to zero
+        return [f"a = {_sg(s[0], 'b')}", f"b = {_sg(s[1], 'd2')}", "a - d2 = 0" if s[2] > 0 else "a + d2 = 0"]
+    if shape == "zero":      # all three written in residual form, variable order mixed
+        return [f"0 = a {'-' if s[0] > 0 else '+'} b", f"d2 {'-' if s[1] > 0 else '+'} b = 0", f"{_sg(s[2], 'a')} = d2"]
+    if shape == "ring4":
+        return [f"a = {_sg(s[0], 'b')}", f"b = {_sg(s[1], 'd2')}", f"d2 = {_sg(s[2], 'e2')}", f"e2 = {_sg(s[3], 'a')}"]
+    raise ValueError(shape)
+
+
+def cycle_models(tier):
+    out = []
+    quick = tier == "quick"
+    for shape in ("ring", "star", "sum", "zero", "ring4"):
+        n = 4 if shape == "ring4" else 3
+        perms = list(itertools.permutations(range(n)))
+        for signs in itertools.product((1, -1), repeat=n):
+            contra = signs.count(-1) % 2 == 1
+            if n == 3:
+                orders = perms if (contra or not quick) else [perms[0], perms[-1]]
+            elif quick:
+                orders = [perms[0], perms[-1]] if contra else []
+            else:
+                orders = perms if contra else perms[::5]
+            for od in orders:
+                eqs = _cycle_eqs(shape, signs)
+                text = link_model([eqs[i] for i in od], "3 * a - b + d2 + 1" + (" + e2" if n == 4 else ""))
+                text = text.replace("Real a, b, d, y;", "Real a, b, d, d2, e2, y;" if n == 4 else "Real a, b, d, d2, y;")
+                out.append((f"cycle:{shape}:{_tag(signs)}:o{''.join(map(str, od))}", text))
+    return out
+
+
+def cycle_option_sets(mid, tier):
+    da = {"detect_aliases": True}
+    six = {k: True for k in SIX if k != "eliminable_variable_expression"}
+    six.update({"eliminable_variable_expression": "^y$", "expand_mx": True})
+    out = [da]
+    identity = mid.endswith(":o012") or mid.endswith(":o0123")
+    if identity or tier != "quick":
+        out += [six, dict(da, expand_mx=True)]
+    if tier != "quick" and identity:
+        out += [dict(da, eliminate_constant_assignments=True, replace_constant_values=True), dict(da, iterative_simplification=True),
+                dict(da, expand_vectors=True), dict(da, factor_and_simplify_equations=True)]
+    return out
+
+
 def models_ext2(tier):
     """Second-round extended classes, used by C14 only (models_ext() is shared with the C15 harness and stays as it is)."""
-    return [(mid, text, ifeq_option_sets(mid, tier)) for mid, text in ifeq_models(tier)]
+    return ([(mid, text, ifeq_option_sets(mid, tier)) for mid, text in ifeq_models(tier)] +
+            [(mid, text, cycle_option_sets(mid, tier)) for mid, text in cycle_models(tier)])
